@@ -12,6 +12,7 @@ from hugr.std.float import FLOAT_T
 from guppylang_internals.ast_util import AstNode, has_empty_body, with_loc
 from guppylang_internals.checker.core import Context, Globals
 from guppylang_internals.checker.errors.comptime_errors import (
+    PytketIncompleteRegisters,
     PytketSignatureMismatch,
     TketNotInstalled,
 )
@@ -390,6 +391,17 @@ def _signature_from_circuit(
                 angle_ty = angle_defn.check_instantiate([])
 
                 if use_arrays:
+                    # Units outside of complete registers would be left unconnected
+                    for kind, regs, num in (
+                        ("qubits", input_circuit.q_registers, input_circuit.n_qubits),
+                        ("bits", input_circuit.c_registers, input_circuit.n_bits),
+                    ):
+                        if sum(reg.size for reg in regs) != num:
+                            reg_err = PytketIncompleteRegisters(defined_at, kind)
+                            reg_err.add_sub_diagnostic(
+                                PytketIncompleteRegisters.UseFlat(None)
+                            )
+                            raise GuppyError(reg_err)
                     inputs = [
                         FuncInput(array_type(qubit_ty, q_reg.size), InputFlags.Inout)
                         for q_reg in input_circuit.q_registers
